@@ -26,8 +26,8 @@ package requestf
 //@   witness i = readBuf.buf.i
 //@   modifies *st, readBuf.buf.i
 //@   allocates
-//@   ensures [C04,C05,C06] readBuf.buf.i >= p0
-//@   ensures [C05] validR(readBuf)
+//@   ensures readBuf.buf.i >= p0
+//@   ensures validR(readBuf)
 //@   loop 0 invariant [C05] validR(readBuf) && readBuf.buf.i >= p0 && i0 >= 0 && len(st.SBuffer) == e0
 //@   loop 0 decreases e0 - i0
 //@   loop 1 invariant [C05] validR(readBuf) && readBuf.buf.i >= p0 && st.Context != nil
@@ -42,7 +42,7 @@ package requestf
 //@   let allocbudget = len(readBuf.buf.src)
 //@   modifies *st, readBuf.buf.i
 //@   allocates
-//@   ensures [C04,C05,C06] readBuf.buf.i >= p0
+//@   ensures readBuf.buf.i >= p0
 //@   safety [C05]
 //
 // ------------------------------------------------------------------ ResponsePacket
@@ -62,8 +62,8 @@ package requestf
 //@   witness i = readBuf.buf.i
 //@   modifies *st, readBuf.buf.i
 //@   allocates
-//@   ensures [C04,C05,C06] readBuf.buf.i >= p0
-//@   ensures [C05] validR(readBuf)
+//@   ensures readBuf.buf.i >= p0
+//@   ensures validR(readBuf)
 //@   loop 0 invariant [C05] validR(readBuf) && readBuf.buf.i >= p0 && i0 >= 0 && len(st.SBuffer) == e0
 //@   loop 0 decreases e0 - i0
 //@   loop 1 invariant [C05] validR(readBuf) && readBuf.buf.i >= p0 && st.Status != nil
@@ -78,5 +78,5 @@ package requestf
 //@   let allocbudget = len(readBuf.buf.src)
 //@   modifies *st, readBuf.buf.i
 //@   allocates
-//@   ensures [C04,C05,C06] readBuf.buf.i >= p0
+//@   ensures readBuf.buf.i >= p0
 //@   safety [C05]
